@@ -229,10 +229,10 @@ Section Stream.
 End Stream.
 
 (* ---------------- specification: declarative precedence ---------------- *)
+(* loosest rank present; 8 (more than any rank) for the empty sequence *)
 Fixpoint min_rank (r : oseq) : nat :=
   match r with
-  | [] => 0
-  | [(op, _)] => crank op
+  | [] => 8
   | (op, _) :: r' => Nat.min (crank op) (min_rank r')
   end.
 
@@ -321,16 +321,17 @@ with nest (f : formula) : nat :=
 
 Definition band (m k : nat) (t : tree) : formula := pf (fun d => Nat.eqb (Nat.modulo d m) k) 0 t.
 Definition bands (m : nat) (t : tree) : list formula := map (fun k => band m k t) (List.seq 0 m).
-Definition nest_limit : nat := 3.
+(* a band may nest at most 3 deep, or one deeper than the parentheses the tree needs anyway *)
+Definition nest_limit (t : tree) : nat := Nat.max 3 (S (nest (paren_min t))).
 Fixpoint choose_bands (fuel m : nat) (t : tree) : list formula :=
   match fuel with
   | O => bands m t
   | S fuel' =>
       let bs := bands m t in
-      if forallb (fun g => Nat.leb (nest g) nest_limit) bs then bs else choose_bands fuel' (S m) t
+      if forallb (fun g => Nat.leb (nest g) (nest_limit t)) bs then bs else choose_bands fuel' (S m) t
   end.
-(* m = 1 is [paren_full] itself *)
-Definition paren_texts (t : tree) : list formula := choose_bands 6 1 t.
+(* m = 1 is [paren_full] itself; at most 5 bands *)
+Definition paren_texts (t : tree) : list formula := choose_bands 4 1 t.
 
 (* ---------------- rendering to Mech source ---------------- *)
 Definition unop_tok (u : unop) : string := match u with UNeg => "-" | UNot => "!" end.
@@ -520,7 +521,8 @@ Definition dtag (f : formula) (o1 o3 : sx) : string :=
 Definition judge_obs (f : formula) (oe : sx) (ops : list sx) (oa : sx) : sx :=
   match ev (rd f) with
   | Some v =>
-      if andb (matches v oe) (forallb (matches v) ops) then v_ok ("value-" ++ dtag f oe oa)
+      if andb (andb (matches v oe) (forallb (matches v) ops)) (forallb (same_value oe) ops)
+      then v_ok ("value-" ++ dtag f oe oa)
       else v_bad "wrong-value" (encode_val v)
   | None =>
       if andb (is_perr oe) (forallb is_perr ops) then v_adv "parse-error"
